@@ -14,12 +14,16 @@ cargo build --release --offline -q 2>/dev/null; cp $TGT/release/vicut /tmp/seed/
 if ! git apply "$patch"; then echo "[$id] PATCH DOES NOT APPLY to HEAD"; git -C /repo worktree remove --force "$WT"; exit 3; fi
 if ! cargo build --release --offline -q 2>/tmp/seed/confirm_build_$id.log; then echo "[$id] DOES NOT COMPILE"; git -C /repo worktree remove --force "$WT"; exit 4; fi
 cp $TGT/release/vicut /tmp/seed/confirm_mut_$id
-tests=$(cargo nextest run --workspace --no-fail-fast --tool-config-file pb:/w/lib/nextest.toml --profile pb --test-threads 8 --offline 2>&1 | grep -E "Summary" | tail -1)
+testlog=$(cargo nextest run --workspace --no-fail-fast --tool-config-file pb:/w/lib/nextest.toml --profile pb --test-threads 8 --offline 2>&1)
+tests=$(echo "$testlog" | grep -E "Summary" | tail -1)
+# the pinned baseline: 119 stable passes; only these three may fail (two of them pass since fix 1f0fadd)
+newfail=$(echo "$testlog" | grep -E "^\s+FAIL " | grep -v -E "normal_to_end_of_line|del_inner_line|put_block_preserve_formatting" | head -1)
 bash "$demo" /tmp/seed/confirm_base_$id >/dev/null 2>&1; b=$?
 bash "$demo" /tmp/seed/confirm_mut_$id >/dev/null 2>&1; m=$?
 echo "[$id] tests: $tests | demo base=$b mutant=$m"
 ok=0
-case "$tests" in *"119 passed, 3 failed"*) ok=1;; esac
+case "$tests" in *"119 passed, 3 failed"*|*"120 passed, 2 failed"*|*"121 passed, 1 failed"*|*"122 passed"*) ok=1;; esac
+[ -n "$newfail" ] && ok=0
 if [ $ok = 1 ] && [ $b = 0 ] && [ $m != 0 ]; then
   d=/verif/seeded/$id; mkdir -p $d
   cp "$patch" $d/patch.diff; cp "$demo" $d/demo.sh
